@@ -1085,10 +1085,11 @@ fn dyn_seg(seg: &Seg) -> DynSeg<impl PossibleRouteMatch + Clone + std::fmt::Debu
 ///   3: (S, :opt?, S)
 ///   4: (S, :opt?)
 ///   5: (S) -> children { 5i: "" (index), 5a: (S), 5b: (S, S) }   (nested; flattened: (S,""), (S,S), (S,S,S))
+///   8, 9: (S), (S)              (two consecutive one-segment siblings)
 /// where every S is static / i18n / param (/ splat when last in its leaf route).
 fn gen_template_table(t: &mut Tape, mask: Mask, set: &[u8]) -> Table {
     let n_keys = 4;
-    let mut loc_names = vec![];
+    let mut loc_names: Vec<Vec<String>> = vec![];
     for k in 0..n_keys {
         let words: &[&str] = if mask.prefix_words && t.chance(1, 3) { PREFIX_LOC_WORDS[0] } else { LOC_WORDS[k] };
         let same = t.chance(1, 5);
@@ -1117,7 +1118,21 @@ fn gen_template_table(t: &mut Tape, mask: Mask, set: &[u8]) -> Table {
     let r5i = vec![p5.clone(), Seg::Static(String::new())];
     let r5a = vec![p5.clone(), s(t, true, false)];
     let r5b = vec![p5, s(t, false, false), s(t, true, false)];
-    Table { routes: vec![vec![Seg::Static(String::new())], r1, r2, r3, r4, r5i, r5a, r5b], loc_names }
+    // two more consecutive sibling leaves of one segment each; two times in three both are localized and, half of
+    // those times, their names coincide in exactly one locale (the per-locale tables must keep both entries)
+    let (r8, r9) = if t.chance(2, 3) {
+        let ka = t.pick(n_keys);
+        let kb = (ka + 1 + t.pick(n_keys - 1)) % n_keys;
+        if t.coin() {
+            let li = t.pick(set.len());
+            let shared = loc_names[ka][li].clone();
+            loc_names[kb][li] = shared;
+        }
+        (vec![Seg::Loc(ka)], vec![Seg::Loc(kb)])
+    } else {
+        (vec![s(t, true, true)], vec![s(t, true, true)])
+    };
+    Table { routes: vec![vec![Seg::Static(String::new())], r1, r2, r3, r4, r5i, r5a, r5b, r8, r9], loc_names }
 }
 
 fn opt_name(seg: &Seg) -> &'static str {
@@ -1169,6 +1184,8 @@ fn nested_case(t: &mut Tape, mask: Mask) -> CaseResult {
             NestedRoute::new((dyn_seg(&rt[6][1]),), ()),
             NestedRoute::new((dyn_seg(&rt[7][1]), dyn_seg(&rt[7][2])), ()),
         )),
+        NestedRoute::new((dyn_seg(&rt[8][0]),), ()),
+        NestedRoute::new((dyn_seg(&rt[9][0]),), ()),
     );
     let props = leptos::component::component_props_builder(&I18nRoute::<DynLocale, (), _>)
         .base_path(intern(&base))
@@ -1227,6 +1244,34 @@ fn nested_case(t: &mut Tape, mask: Mask) -> CaseResult {
                 "expected": render(&expected), "actual": render(&generated), "case": cj0,
             }),
         });
+    }
+
+    // ---- the per-locale tables `i18n_routing` itself keeps for get_new_path (hook): one entry per route, in route
+    // order, for every locale (localize_path pairs the old and the new locale's tables by position)
+    {
+        let tables = leptos_i18n_router::verif_hooks::last_route_tables();
+        let mut expected_tables: Vec<(String, Vec<Vec<PathSegment>>)> = (0..set.len())
+            .map(|li| (name(li), (0..c.table.routes.len()).map(|r| c.table.path_segments(li, r)).collect()))
+            .collect();
+        expected_tables.sort_by(|a, b| a.0.cmp(&b.0));
+        obs += 1;
+        let show = |v: &Vec<(String, Vec<Vec<PathSegment>>)>| -> Vec<Value> {
+            v.iter().map(|(l, t)| json!({"locale": l, "routes": t.iter().map(|r| r.iter().map(seg_to_string).collect::<Vec<_>>().join(" / ")).collect::<Vec<_>>()})).collect()
+        };
+        if show(&tables) != show(&expected_tables) {
+            return Err(Failure {
+                signature: "route-tables-mismatch".into(),
+                detail: json!({
+                    "function": "i18n_routing: per-locale route tables (generate_routes_for_each_locale)",
+                    "why": "every locale's table must list every route of the tree once, in the same order: a locale switch pairs the two tables by position",
+                    "expected": show(&expected_tables), "actual": show(&tables), "case": cj0,
+                }),
+            });
+        }
+        if expected_tables.iter().any(|(_, t)| t.windows(2).any(|w| w[0] == w[1])) && !expected_tables.iter().all(|(_, t)| t.windows(2).any(|w| w[0] == w[1])) {
+            classes.push("two-consecutive-routes-identical-in-one-locale-only".into());
+            nontrivial = true;
+        }
     }
 
     // ---- the per-locale segment lists the router keeps for get_new_path, taken from the real route
